@@ -4174,7 +4174,22 @@ func ruleC14R12(w *World, r *Report) {
 	}
 	// the base variable: an int phi with constant edges 10 and 16
 	var basePhi *ssa.Phi
-	for _, b := range root.Blocks {
+	var blocks []*ssa.BasicBlock
+	blocks = append(blocks, root.Blocks...)
+	{
+		// the measuring loop may live in a helper of the lexer that only looks (scanNumber() (n, base, isInt))
+		probe := w.newLexBounds()
+		for _, b := range root.Blocks {
+			for _, in := range b.Instrs {
+				if c, ok := in.(*ssa.Call); ok {
+					if h := c.Call.StaticCallee(); h != nil && h.Blocks != nil && h.Signature.Recv() != nil && w.isLexerPtr(h.Signature.Recv().Type()) && !probe.movesCursor(h) && len(naturalLoops(h)) > 0 {
+						blocks = append(blocks, h.Blocks...)
+					}
+				}
+			}
+		}
+	}
+	for _, b := range blocks {
 		for _, in := range b.Instrs {
 			phi, ok := in.(*ssa.Phi)
 			if !ok {
